@@ -152,3 +152,29 @@ C10 = [_bd(f) for f in (
     "hwloc_get_membind", "hwloc_get_proc_membind", "hwloc_get_area_membind", "hwloc_get_area_memlocation",
     "hwloc_alloc_membind", "hwloc_dummy_hooks")]
 PROPS["C10"] = C10
+
+
+# ------------------------------------------------------------------ guards: C19 (EPERM), C08 (EINVAL clause), C02 (allow clause)
+def _gd(fn, drv, replace=(), cost=5, **kw):
+    return Job(name=fn, driver="guard.%s.drv.c" % drv, entry="h_" + fn, enforce=fn, replace=replace, cost=cost, family="guard",
+               fallback=False, **kw)
+
+GUARD_EPERM = [
+    _gd("hwloc_topology_alloc_group_object", "topology", replace=["hwloc_alloc_setup_object"], note="adopted topology => NULL/EPERM, frame = {errno}"),
+    _gd("hwloc_topology_free_group_object", "topology", replace=["hwloc_free_unlinked_object"], note="adopted topology => -1/EPERM, frame = {errno}"),
+    _gd("hwloc_topology_insert_group_object", "topology", replace=["hwloc_free_unlinked_object", "hwloc__insert_object_by_cpuset", "hwloc__reconnect", "hwloc_obj_add_children_sets"], unwind=1,
+        note="adopted topology => NULL/EPERM, frame = {errno} (+ the never-inserted object is destroyed: assumed contract of hwloc_free_unlinked_object)"),
+    _gd("hwloc_topology_insert_misc_object", "topology", replace=["hwloc_alloc_setup_object", "hwloc_insert_object_by_parent", "hwloc_topology_reconnect"], unwind=1, note="adopted topology => NULL/EPERM, frame = {errno}"),
+    _gd("hwloc_distances_remove", "distances", replace=["hwloc_internal_distances_destroy"], note="adopted topology => -1/EPERM, frame = {errno}"),
+    _gd("hwloc_distances_remove_by_depth", "distances", unwind=1, note="adopted topology => -1/EPERM, frame = {errno}"),
+    _gd("hwloc_distances_add_create", "distances", replace=["hwloc_backend_distances_add_create"], note="adopted topology => NULL/EPERM, frame = {errno}"),
+    _gd("hwloc_topology_diff_apply", "diff", replace=["hwloc_apply_diff_one"], unwind=1, note="adopted topology => -1/EPERM, frame = {errno}"),
+]
+RESTRICT_GUARD = _gd("hwloc_topology_restrict", "topology", min_post=4,
+    note="adopted => EPERM; unknown/inconsistent flags or non-intersecting set => EINVAL; in both cases frame = {errno}; the intersects query is made on (set, allowed set selected by BYNODESET)")
+ALLOW_GUARD = _gd("hwloc_topology_allow", "topology", min_post=4,
+    note="any failure leaves both allowed sets unchanged; frame = {errno, the two allowed sets}; all flag words, all NULL/non-NULL set combinations, hook present or not")
+
+PROPS["C19"] = GUARD_EPERM + [RESTRICT_GUARD]
+PROPS["C08"] = [RESTRICT_GUARD]
+PROPS["C02"] = [ALLOW_GUARD]
